@@ -568,6 +568,8 @@ class Interp:
         return Val(("Tuple", tuple(v.ty for v in vals)), vals)
 
     def e_List(self, st, node):
+        if not node.elts:
+            return Val(("Ref", "List[Any]"), None, extra=("emptylist",))
         vals = [self.eval(st, e) for e in node.elts]
         return self.make_list(st, vals, node)
 
@@ -957,8 +959,10 @@ class Interp:
             if is_ref(ba) and is_ref(bb):
                 # structural equality for dict-like objects compared with ==
                 kd = REG.get(ba[1])
-                if kd.kind == "dict" and st.spec_depth > 0:
-                    return self.same_content(st, a, b)
+                kb = REG.get(bb[1])
+                if kd.kind in ("dict", "set", "list") and kb.kind == kd.kind and a.term is not None and b.term is not None:
+                    # == on builtin containers (and dict subclasses without __eq__) is structural
+                    return z3.Or(a.term == b.term, self.same_content(st, a, b))
                 fi = self.find_method(ba[1], "__eq__")
                 if fi is not None:
                     raise Unsupported("user __eq__ on %s" % ba[1])
